@@ -2,7 +2,8 @@
 import contextlib
 
 TWIN = False  # reachability twin: a harness that reaches its end reports it
-EXCLUDED = set()  # keys of known findings already reported in this run
+EXCLUDED = set()  # fnmatch patterns of the known findings (known_findings.json, status open)
+HITS = {}  # pattern -> first concrete key/detail that matched in this run
 PATHS = [0]  # executions of harness bodies == paths explored by CrossHair
 SAMPLES = []  # a few explored cases, written into the evidence file
 CASES = set()  # distinct concrete cases seen (selector harnesses)
@@ -13,6 +14,7 @@ def reset():
     global TWIN
     TWIN = False
     EXCLUDED.clear()
+    HITS.clear()
     PATHS[0] = 0
     del SAMPLES[:]
     CASES.clear()
@@ -55,6 +57,13 @@ def pick(table, i):
     return table[i]
 
 
+def selb(b):
+    """concrete value of a symbolic bool (the solver branches on it)"""
+    if b:
+        return True
+    return False
+
+
 def sel(i, n):
     """concrete value of selector i known to be in range(n)"""
     r = _RANGES.get(n)
@@ -67,9 +76,10 @@ def begin(case=None):
     PATHS[0] += 1
     if case is not None:
         with untraced():
-            CASES.add(repr(case))
+            text = repr(conc(case))
+            CASES.add(text)
             if len(SAMPLES) < MAX_SAMPLES:
-                SAMPLES.append(case)
+                SAMPLES.append(text)
 
 
 def ok():
@@ -79,6 +89,10 @@ def ok():
 def fail(key, detail):
     """report a violation unless ``key`` is a known finding excluded for this run"""
     with untraced():
-        if key in EXCLUDED:
-            return ok()
+        import fnmatch
+        for pat in EXCLUDED:
+            if fnmatch.fnmatchcase(key, pat):
+                if pat not in HITS:
+                    HITS[pat] = '%s :: %s' % (key, detail)
+                return ok()
         return '%s :: %s' % (key, detail)
